@@ -1424,20 +1424,22 @@ def _on_alarm(signum, frame):
     raise CaseTimeout()
 
 
-CASE_TIMEOUT = 30.0
+CASE_TIMEOUT = 30.0  # CPU seconds of the worker
 MAX_TIMEOUTS_PER_SHARD = 3
 
 
 def _arm():
     import signal
 
-    signal.signal(signal.SIGALRM, _on_alarm)
+    # CPU-time timer: the watchdog is there for endless Python-level loops; a wall-clock timer fires
+    # spuriously when the (shared, virtualised) machine stalls or its clock jumps
+    signal.signal(signal.SIGVTALRM, _on_alarm)
 
 
 def _timer(seconds):
     import signal
 
-    signal.setitimer(signal.ITIMER_REAL, seconds)
+    signal.setitimer(signal.ITIMER_VIRTUAL, seconds)
 
 
 def run_shard(shard, ctx):
@@ -1619,7 +1621,7 @@ def run_graph(shard, ctx):
     # once per case; find that out in a child first
     canary_case = {"kind": "graph_canary"}
     if ctx.journal(canary_case):
-        r = ctx.isolated(_canary, ctx.tier, ctx.seed, timeout=60)
+        r = ctx.isolated(_canary, ctx.tier, ctx.seed, timeout=120)
         if r[0] in ("signal", "timeout", "exit"):
             what = {"signal": "process_killed_signal_%s" % (r[1:] or ("?",))[0], "timeout": "did_not_terminate",
                     "exit": "process_exit"}[r[0]]
@@ -1709,7 +1711,7 @@ def replay(case, ctx):
         finally:
             _timer(0)
     elif k == "graph_canary":
-        r = ctx.isolated(_canary, ctx.tier, ctx.seed, timeout=60)
+        r = ctx.isolated(_canary, ctx.tier, ctx.seed, timeout=120)
         if r[0] in ("signal", "timeout", "exit"):
             what = {"signal": "process_killed_signal_%s" % (r[1:] or ("?",))[0], "timeout": "did_not_terminate",
                     "exit": "process_exit"}[r[0]]
